@@ -44,7 +44,9 @@ def snap(o):
     from barril.units import Array, FixedArray, FractionScalar, Scalar
 
     q = o.GetQuantity()
-    base = (type(o).__name__, id(q), o.GetUnit(), o.GetCategory(), o.GetQuantityType())
+    # the composing map and the unit name are read from the quantity's internals on every call (unit and category are
+    # strings computed once): an operation that rewrites the shared quantity in place shows here
+    base = (type(o).__name__, id(q), o.GetUnit(), o.GetCategory(), o.GetQuantityType(), repr(list(q.GetCategoryToUnitAndExps().items())), q.GetUnitName() if not q.IsDerived() or q.GetUnit() else "", repr(q.GetComposingUnitsJoiningExponents()))
     if isinstance(o, Scalar):
         return base + (repr(o._value), repr(o.GetValue()))
     if isinstance(o, FractionScalar):
